@@ -110,7 +110,16 @@ pub fn check(sh: &Shared, c: &Case) -> Check {
     sh.eval();
     let mut t = build(&c.d);
     let extra: Vec<_> = c.extra.iter().map(|e| build(e)).collect();
-    let r = guard(|| t.push_components(extra).map_err(|e| e.to_string()));
+    // the component list arrives through different kinds of iterators (exact-size Vec, filtered,
+    // generated): the outcome must not depend on that
+    let r = match c.new_name.len() % 3 {
+        0 => guard(|| t.push_components(extra).map_err(|e| e.to_string())),
+        1 => guard(|| t.push_components(extra.into_iter().filter(|_| true)).map_err(|e| e.to_string())),
+        _ => {
+            let mut it = extra.into_iter();
+            guard(|| t.push_components(std::iter::from_fn(move || it.next())).map_err(|e| e.to_string()))
+        }
+    };
     let r = match r {
         Ok(r) => r,
         Err(p) => fail!("push:panic", "push_components panicked on {:?}: {p}", c.d),
@@ -247,7 +256,12 @@ pub fn strategy() -> BoxedStrategy<Case> {
         .prop_map(|(d, how, new_name, mut extra, dup)| {
             // sometimes append a duplicate of an existing component
             if dup % 3 == 0 && !d.kids.is_empty() {
-                extra.push(d.kids[(dup as usize / 3) % d.kids.len()].clone());
+                let mut k = d.kids[(dup as usize / 3) % d.kids.len()].clone();
+                // a symmetric statement is appended mirrored: the same element for an unordered compound
+                if k.k.is_sym_statement() && dup % 2 == 0 {
+                    k.kids.swap(0, 1);
+                }
+                extra.push(k);
             }
             Case { d, how, new_name, extra }
         })
